@@ -16,7 +16,7 @@ from .C06 import fold
 
 MATH = "typhon/math/common.py"
 ATM = "typhon/physics/atmosphere.py"
-EXPECT = {"C14.api": 1, "C14.argorder": 2, "C14.iwv": 3, "C14.crh": 4, "C14.p2h": 4, "C14.isa": 3}
+EXPECT = {"C14.api": 1, "C14.argorder": 2, "C14.iwv": 3, "C14.crh": 4, "C14.p2h": 4, "C14.isa": 3, "C14.pure": 4}
 
 
 def rule_api(ctx):
@@ -77,8 +77,27 @@ def rule_argorder(ctx):
     y, x, axis = f.params[:3]
     flow = Flow(f)
     rets = [s for s in flow.stmts if isinstance(s, ast.Return)]
-    if len(rets) != 1 or not isinstance(rets[0].value, ast.Call):
-        raise AnalysisError("integrate_column is not a single call")
+    if not rets or not all(isinstance(r.value, ast.Call) for r in rets):
+        raise AnalysisError("integrate_column does not return calls of the integration routine")
+    # extra returns: a variant that integrates with a scalar spacing instead of the coordinate
+    for r in rets[:-1]:
+        kw_ = {k.arg: norm(k.value) for k in r.value.keywords}
+        passes_x = len(r.value.args) > 1 and norm(r.value.args[1]) == x
+        if not passes_x:
+            guards = []
+            n_ = parent(r)
+            while n_ is not None and not isinstance(n_, ast.FunctionDef):
+                if isinstance(n_, ast.If):
+                    guards.append(norm(n_.test))
+                n_ = parent(n_)
+            approx = any(g for g in guards if any(a in g for a in ("allclose", "isclose")))
+            if approx:
+                ctx.ob("integrate_column.forward", False, "additional return %s under %s" % (norm(r.value), guards),
+                       "every path integrates over the caller's coordinate x; an approximate uniformity test (allclose: absolute tolerance 1e-8) "
+                       "must not replace it by a scalar spacing", node=r, func=f)
+                return
+            raise AnalysisError("integrate_column: return %s does not pass the coordinate" % norm(r.value))
+    rets = rets[-1:]
     c = rets[0].value
     callee = flow.resolve(c.func, at=rets[0])
     ctxt = norm(callee)
@@ -103,20 +122,19 @@ def rule_argorder(ctx):
 def rule_iwv(ctx):
     ctx.rule("C14.iwv", "T5", "IWV: hydrostatic = -I(q(vmr), p)/g; general = I(vmr p/(R_v T), z); both-or-neither of T, z")
     I = sp.Function("I")
-    ev = Sym(ctx.repo, hooks={"integrate_column": lambda y_, x_=None, axis=0: I(y_, x_)})
+    AX = sp.Symbol("axis", integer=True)
+    ev = Sym(ctx.repo, hooks={"integrate_column": lambda y_, x_=None, axis=0: I(y_, x_, sp.sympify(axis))})
     vmr, p, T, z = sp.symbols("vmr p T z", positive=True)
     f = ctx.func(ATM, "integrate_water_vapor")
     g = ev.const.get("earth_standard_gravity")
     q = Sym(ctx.repo).call(ATM, "vmr2specific_humidity", vmr)
-    hyd = ev.call(ATM, "integrate_water_vapor", vmr, p)
-    v, info = is_zero(sp.simplify(hyd + I(q, p) / g))
-    if v is None:
-        v = sp.simplify(hyd + I(sp.simplify(q), p) / g) == 0 or _same_I(hyd, -I(q, p) / g, I)
-    ctx.ob("integrate_water_vapor.hydrostatic", bool(v), "hydrostatic branch = %s" % hyd, "-I(vmr2specific_humidity(vmr), p) / g", node=f.node, func=f)
+    hyd = ev.call(ATM, "integrate_water_vapor", vmr, p, axis=AX)
+    v = _same_I(hyd, -I(q, p, AX) / g, I)
+    ctx.ob("integrate_water_vapor.hydrostatic", bool(v), "hydrostatic branch = %s" % hyd, "-I(vmr2specific_humidity(vmr), p, axis) / g (the caller's axis)", node=f.node, func=f)
     Rv = ev.const.get("gas_constant_water_vapor")
-    gen = ev.call(ATM, "integrate_water_vapor", vmr, p, T, z)
-    ok = _same_I(gen, I(vmr * p / (Rv * T), z), I)
-    ctx.ob("integrate_water_vapor.general", ok, "general branch = %s" % gen, "I(vmr * p / (R_v T), z) with the gas constant of WATER VAPOUR", node=f.node, func=f)
+    gen = ev.call(ATM, "integrate_water_vapor", vmr, p, T, z, axis=AX)
+    ok = _same_I(gen, I(vmr * p / (Rv * T), z, AX), I)
+    ctx.ob("integrate_water_vapor.general", ok, "general branch = %s" % gen, "I(vmr * p / (R_v T), z, axis) with the gas constant of WATER VAPOUR and the caller's axis", node=f.node, func=f)
     # both-or-neither
     mixed = []
     for a in ((T, None), (None, z)):
@@ -382,3 +400,5 @@ def rule_isa(ctx):
 def run(ctx):
     for r in (rule_api, rule_argorder, rule_iwv, rule_crh, rule_p2h, rule_isa):
         ctx.attempt(r, ctx)
+    from ..purity import rule_pure
+    ctx.attempt(rule_pure, ctx, "C14.pure", [(MATH, "integrate_column"), (ATM, "integrate_water_vapor"), (ATM, "column_relative_humidity"), (ATM, "pressure2height")])
